@@ -216,6 +216,11 @@ def interp2d_rules(chk):
             if callname(n) == "clip" and len(n.args) == 3 and isinstance(n.args[1], ast.Constant) and isinstance(n.args[1].value, float) and \
                     0 < n.args[1].value <= 1e-6 and isinstance(n.args[2], ast.Constant) and n.args[2].value is None:
                 return n.args[0]
+            if callname(n) == "maximum" and len(n.args) == 2 and not n.keywords:        # the same guard spelt np.maximum(E, tiny)
+                for k in (0, 1):
+                    t_ = n.args[1 - k]
+                    if isinstance(t_, ast.Constant) and isinstance(t_.value, float) and 0 < t_.value <= 1e-6:
+                        return n.args[k]
             return n
     nm = Normaliser()
     p = nm.poly(ret)
@@ -313,7 +318,31 @@ def interp2d_rules(chk):
                       (isinstance(c0.ops[0], ast.Lt) and r_ == Poly.atom(node_at) and l_ == Poly.atom(xq))
         okb = same_c and near and shape_ok and cond_ok
         whyb = "same condition: %s; nearest node by argmin|x - xf|: %s; (N-1, N) / (N, N+1): %s; condition xf[N] > x: %s" % (same_c, near, shape_ok, cond_ok)
+    else:
+        # the same bracket by mask arithmetic: lower = N - M, upper = N - M + 1 with M = (xf[N] > x) as 0/1
+        ams = [n for n in ast.walk(e_lo) if isinstance(n, ast.Call) and callname(n) == "argmin"]
+        mks = [n for n in ast.walk(e_lo) if isinstance(n, ast.Call) and isinstance(n.func, ast.Attribute) and n.func.attr == "astype" and
+               isinstance(n.func.value, ast.Compare) and len(n.func.value.ops) == 1]
+        if ams and mks:
+            Nn, Mn = ams[0], mks[0]
+            N, M = nm.poly(Nn), Poly.atom(nm.opaque(Mn))
+            c0 = Mn.func.value
+            node_at = nm.opaque(ast.Subscript(value=ast.Name(id=xf, ctx=ast.Load()), slice=Nn, ctx=ast.Load()))
+            l_, r_ = nm.poly(c0.left), nm.poly(c0.comparators[0])
+            cond_ok = (isinstance(c0.ops[0], ast.Gt) and l_ == Poly.atom(node_at) and r_ == Poly.atom(xq)) or \
+                      (isinstance(c0.ops[0], ast.Lt) and r_ == Poly.atom(node_at) and l_ == Poly.atom(xq))
+            near = "abs(" in nm.opaque(Nn)
+            int_mask = "float" not in ast.unparse(Mn.args[0]) if Mn.args else False
+            shape_ok = nm.poly(e_lo) == N - M and nm.poly(e_up) == N - M + Poly.const(1)
+            okb = near and shape_ok and cond_ok and int_mask
+            whyb = "mask arithmetic: nearest node by argmin|x - xf|: %s; lower = N - M, upper = N - M + 1: %s; M is xf[N] > x: %s" % (near, shape_ok, cond_ok)
+            located = True
+        else:
+            located = False
+    if callname(e_lo) == "where":
+        located = True
     chk.ob("R-I2D", c + "{bracket}", "before clamping the bracket is (N-1, N) when the nearest node N lies above the query, (N, N+1) otherwise", okb, derived=whyb,
+           inconclusive=not located,
            loc=fi.loc(), detail="a query below the first node would be extrapolated instead of clamped" if not okb else None)
     r = analyse(chk, q, lambda I, st, fi: dict(x=AV(kind=K_ARRAY, dtype="real", shape=(LinExpr("Q"),), origin=frozenset(["p:x"]), tags=frozenset(["p:x"])),
                                                xf=AV(kind=K_ARRAY, dtype="real", shape=(LinExpr("X"),), mono=frozenset([0]), origin=frozenset(["p:xf"]),
